@@ -115,3 +115,51 @@ contract("CountMinSketch.frombytes", kind="classmethod", contexts=["CountMinSket
                    "mode_of(result) == default_mode(cls)"),
                   ("hash_function_kept_or_default",
                    "result._hash_function == (hash_function if hash_function is not None else default_fnv_1a)")])
+
+
+# ---- counting Bloom filter: the bodies are BloomFilter's, the cells are uint32 (C05, C06, C08) ---------------------------------
+from pyvc.api import clone_contract  # noqa: E402
+_CB = ["CountingBloomFilter"]
+_CEXP = [("inv", "inv_cbloom(self)"), ("counters_fit_uint64", "0 <= self._est_elements < 2**64 and 0 <= self._els_added < 2**64"),
+         ("cells_are_uint32", "all(0 <= self._bloom[c] < 2**32 for c in range(0, len(self._bloom)))")]
+contract("BloomFilter.export@CountingBloomFilter", contexts=_CB, properties=["C05", "C06", "C08", "C19"],
+         params={"file": "stream"}, requires=_CEXP, modifies=["file"],
+         ensures=[("appends_exactly_cells_plus_footer", "len(written(file)) == old(len(written(file))) + 4 * len(self._bloom) + 20"),
+                  ("earlier_bytes_kept", "all(written(file)[i] == old(written(file))[i] for i in range(0, old(len(written(file)))))"),
+                  ("documented_layout", "cbloom_image(self, written(file), old(len(written(file))))")])
+contract("BloomFilter.__bytes__@CountingBloomFilter", contexts=_CB, properties=["C05", "C06", "C08", "C19"],
+         returns="bytes", requires=_CEXP, modifies=[],
+         ensures=[("size", "len(result) == 4 * len(self._bloom) + 20"), ("documented_layout", "cbloom_image(self, result, 0)")])
+contract("BloomFilter._parse_bloom_array@CountingBloomFilter", contexts=_CB, properties=["C05", "C06", "C08"],
+         params={"b": "bytes", "offset": "int"}, variants=[{"b": "mmap"}],
+         requires=[("enough_bytes", "0 <= offset <= len(b)"), ("whole_cells", "offset % 4 == 0"), ("uint32_cells", "self._typecode == 'I'")],
+         modifies=["self._bloom"],
+         ensures=[("cells_are_the_leading_uint32s", "4 * len(self._bloom) == offset and "
+                                                    "all(self._bloom[c] == le_bytes(b, 4 * c, 4) for c in range(0, len(self._bloom)))")])
+
+_CLOAD_REQ = [("has_footer", "len(file) >= 20"),
+              ("stored_geometry_usable",
+               "0 < f32_at(file, len(file) - 4) < 1 and le_bytes(file, len(file) - 20, 8) >= 1 and "
+               "bloom_k(le_bytes(file, len(file) - 20, 8), bloom_m(le_bytes(file, len(file) - 20, 8), f32_at(file, len(file) - 4))) >= 1 and "
+               "bloom_m(le_bytes(file, len(file) - 20, 8), f32_at(file, len(file) - 4)) < 2**53"),
+              ("cells_present", "len(file) >= 20 + 4 * bloom_m(le_bytes(file, len(file) - 20, 8), f32_at(file, len(file) - 4))"),
+              ("uint32_cells", "self._typecode == 'I' and self._bits_per_elm == 1.0")]
+_CLOADED = [("estimated_elements", "self._est_elements == le_bytes(file, len(file) - 20, 8)"),
+            ("elements_added", "self._els_added == le_bytes(file, len(file) - 12, 8)"),
+            ("rate", "self._fpr == f32_at(file, len(file) - 4)"),
+            ("geometry", "geo_bloom(self)"), ("inv", "inv_cbloom(self)"),
+            ("cells", "all(self._bloom[c] == le_bytes(file, 4 * c, 4) for c in range(0, self._bloom_length))"),
+            ("hash_function_kept_or_default",
+             "self._hash_func == (hash_function if hash_function is not None else default_fnv_1a)")]
+contract("BloomFilter._load@CountingBloomFilter", contexts=_CB, properties=["C05", "C06", "C08"],
+         params={"file": "bytes", "hash_function": "opt[hashfunc]"}, variants=[{"file": "mmap"}],
+         requires=_CLOAD_REQ,
+         modifies=["self._est_elements", "self._fpr", "self._bloom_length", "self._hash_func", "self._els_added",
+                   "self._number_hashes", "self._num_bits", "self._bloom"],
+         ensures=_CLOADED)
+contract("CountingBloomFilter.frombytes", kind="classmethod", contexts=_CB, properties=["C05", "C06", "C08"],
+         params={"b": "bytes", "hash_function": "opt[hashfunc]"}, returns="obj:CountingBloomFilter",
+         requires=[r if not isinstance(r, tuple) else (r[0], r[1].replace("file", "b")) for r in _CLOAD_REQ[:3]],
+         modifies=[],
+         ensures=[(n, t.replace("self.", "result.").replace("file", "b").replace("geo_bloom(self)", "geo_bloom(result)")
+                   .replace("inv_cbloom(self)", "inv_cbloom(result)")) for n, t in _CLOADED])
